@@ -821,6 +821,56 @@ class Exec:
     def ev_GeneratorExp(self, st, node):
         return SV(TPy("genexp"), py=node)
 
+    def ev_DictComp(self, st, node):
+        """{x: VALUE(x) for x in xs} assigned to a local of declared dict type.  Only the form whose key is the
+        loop variable itself (so that equal keys get equal values whatever the order) and without filter."""
+        t = getattr(st, "_expect_dict", None)
+        if t is None:
+            raise Unsupported("dict comprehension without a declared dict type for its target")
+        if len(node.generators) != 1:
+            raise Unsupported("nested dict comprehension")
+        gen = node.generators[0]
+        if gen.ifs or not isinstance(gen.target, ast.Name) or not isinstance(node.key, ast.Name) or \
+                node.key.id != gen.target.id:
+            raise Unsupported("dict comprehension whose key is not the loop variable / with a filter")
+        xs = self.ev(st, gen.iter)
+        if not isinstance(xs.t, TSeq) or xs.t.elem.key() != t.k.key():
+            raise Unsupported("dict comprehension over %s for %s" % (xs.t, t))
+        n = self.seq_len(xs)
+        xa = xs.t.arr(xs.z)
+        j = self.bvar("dc")
+        saved = dict(st.env)
+        st._expect_dict = None
+        self.push_binder(st, [j], z3.And(0 <= j, j < n))
+        try:
+            st.env[gen.target.id] = self.seq_get(xs, j)
+            if isinstance(t.v, TSeq):
+                st._expect_elem = t.v.elem
+            v = self.coerce_decl(st, self.ev(st, node.value), t.v)
+        finally:
+            st._expect_elem = None
+            self.pop_binder(st)
+            st.env = saved
+        r = self.fresh("dictcomp", t)
+        for f in self.wf(r):
+            self.assume(st, f)
+        has, vals = t.has(r.z), t.vals(r.z)
+        self.assume(st, z3.ForAll([j], z3.Implies(z3.And(0 <= j, j < n),
+                                                  z3.And(z3.Select(has, xa[j]), z3.Select(vals, xa[j]) == v.z)),
+                                  patterns=[xa[j]]))
+        kx = z3.Const("dc_k", t.k.sort())
+        pos = self.uf("dcpos_" + t.key(), t.sort(), t.k.sort(), z3.IntSort())
+        p_ = pos(r.z, kx)
+        self.assume(st, z3.ForAll([kx], z3.Implies(z3.Select(has, kx), z3.And(0 <= p_, p_ < n, xa[p_] == kx)),
+                                  patterns=[z3.Select(has, kx)]))
+        a, b = self.bvar("da"), self.bvar("db")
+        distinct = z3.ForAll([a, b], z3.Implies(z3.And(0 <= a, a < b, b < n), xa[a] != xa[b]),
+                             patterns=[z3.MultiPattern(xa[a], xa[b])])
+        self.assume(st, z3.Implies(distinct, t.keys(r.z) == xs.z))
+        self.used_lib.add("dict comprehension {x: f(x) for x in xs}: domain = the elements of xs, value f(x); key "
+                          "order = xs when xs has no duplicates")
+        return r
+
     def ev_Starred(self, st, node):
         raise Unsupported("starred expression")
 
@@ -1194,10 +1244,13 @@ class Exec:
             t = parse_type(self.c.locals[s.targets[0].id])
             if isinstance(t, TSeq):
                 st._expect_elem = t.elem
+            if isinstance(t, TDict):
+                st._expect_dict = t
         try:
             val = self.ev(st, s.value)
         finally:
             st._expect_elem = None
+            st._expect_dict = None
         outs = self.split_exc(st)
         for tg in s.targets:
             self.assign_to(st, tg, val, s)
